@@ -23,8 +23,12 @@ fn id(w: u64, rng: &mut StdRng) -> VariableID {
         _ => VariableID::from(rng.gen::<u64>()),
     }
 }
+/// one character of a name: half of the names are plain lower-case letters, the other half are drawn from a small
+/// alphabet of characters that string handling tends to treat specially (NUL, separators, dots, blanks, DEL)
+const SPECIAL: [char; 8] = ['a', 'b', '/', '.', '\0', ' ', '~', '\x7f'];
 fn name(n: u64, rng: &mut StdRng) -> Utf8PathBuf {
-    let s: String = (0..n).map(|_| (b'a' + rng.gen_range(0..26)) as char).collect();
+    let special: bool = rng.gen();
+    let s: String = (0..n).map(|_| if special { SPECIAL[rng.gen_range(0..SPECIAL.len())] } else { (b'a' + rng.gen_range(0..26)) as char }).collect();
     Utf8PathBuf::from(s)
 }
 fn bytes(n: u64, rng: &mut StdRng) -> Vec<u8> {
@@ -134,7 +138,22 @@ fn build(sh: &Value, rng: &mut StdRng) -> PDU {
         "NAK" => PDUPayload::Directive(Operations::Nak(NegativeAcknowledgmentPDU {
             start_of_scope: off(rng),
             end_of_scope: off(rng),
-            segment_requests: (0..u(sh, "nreq")).map(|_| SegmentRequestForm { start_offset: off(rng), end_offset: off(rng) }).collect(),
+            // half of the lists use arbitrary offsets, the other half a small pool, so that equal, adjacent, nested and
+            // empty requests occur
+            segment_requests: {
+                let pool: bool = rng.gen();
+                (0..u(sh, "nreq"))
+                    .map(|_| {
+                        if pool {
+                            let a = 100 * rng.gen_range(0..5u64);
+                            let b = 100 * rng.gen_range(0..5u64);
+                            SegmentRequestForm { start_offset: a.min(b), end_offset: a.max(b) }
+                        } else {
+                            SegmentRequestForm { start_offset: off(rng), end_offset: off(rng) }
+                        }
+                    })
+                    .collect()
+            },
         })),
         "Prompt" => PDUPayload::Directive(Operations::Prompt(PromptPDU { nak_or_keep_alive: if rng.gen() { NakOrKeepAlive::Nak } else { NakOrKeepAlive::KeepAlive } })),
         _ => PDUPayload::Directive(Operations::KeepAlive(KeepAlivePDU { progress: off(rng) })),
@@ -308,7 +327,7 @@ fn arith(path: &str) {
     println!("{}", json!({"evaluations": n, "violations": viol}));
 }
 
-fn crc(path: &str, seed: u64, out: &str, heavy: bool) {
+fn crc(path: &str, seed: u64, out: &str, heavy_mode: bool) {
     let v: Value = serde_json::from_str(&std::fs::read_to_string(path).unwrap()).unwrap();
     let mut rng = StdRng::seed_from_u64(seed);
     let mut f = std::io::BufWriter::new(std::fs::File::create(out).unwrap());
@@ -323,6 +342,8 @@ fn crc(path: &str, seed: u64, out: &str, heavy: bool) {
         let pdu = build(sh, &mut rng);
         let enc = pdu.clone().encode();
         pdus += 1;
+        // thorough tier: the dense pattern sets on every eighth PDU (all of them would take hours), the quick sets on the rest
+        let heavy = heavy_mode && pdus % 8 == 0;
         // the CRC the code appended, for TLC to check against Crc.tla (short frames only: TLC evaluates bit by bit)
         if enc.len() <= 40 && recs < 60 {
             let n = enc.len();
@@ -433,7 +454,10 @@ fn uops(path: &str, seed: u64, per: usize, mutate: bool) {
                 let n = f[1].as_u64().unwrap();
                 match f[0].as_str().unwrap() {
                     "lit" => w.push(n as u8),
-                    "asc" => w.extend((0..n).map(|_| b'a' + rng.gen_range(0..26u8))),
+                    "asc" => {
+                        let special: bool = rng.gen();
+                        w.extend((0..n).map(|_| if special { SPECIAL[rng.gen_range(0..SPECIAL.len())] as u8 } else { b'a' + rng.gen_range(0..26u8) }))
+                    }
                     _ => w.extend((0..n).map(|_| rng.gen::<u8>())),
                 }
             }
